@@ -26,6 +26,13 @@ Operations (viewgram ids of the subset follow):
   `pen <n> <c> q…(c) p…(c)` → per element `q − p/n`; `penh|penah <n> <c> q…(c) pin…(c)` → `q − pin/n` (`pin` = prior's Hessian applied to the input);
   `hist <sameproj> <recompute> <nsub> <g> <g2> r…` → per request `1`/`0` (served correctly?) for the flag machine, for the given
   values of the two indeterminate members and, after ` / `, for the opposite values if that makes a difference.
+One object set up several times (the model object `SensObj` and the model files survive `cfg` lines):
+  `hnew` → a newly constructed object, no sensitivity files on disk;
+  `hsetup <use_subset_sens> <n> <set_recompute_sensitivity called with 0|1, or -> <sensitivity_filename set> <subsensitivity_filenames set>
+          <subsets balanced> <sep> ids… / ids… / …` (the sensitivity viewgrams of subset 0 / 1 / …; `sep`: of the `sbin` geometry)
+          → `ok|refused <recompute_sensitivity after set_up>`: `setUpSens` of the model on the object as the earlier lines left it;
+  `hsub <s>`, `htot` → what `get_subset_sensitivity(s)` / `get_sensitivity()` of that object return now (`null`: null pointer), per voxel
+          value and bound as for `sens`.
 The bound is the forward error bound `4·n·2⁻²⁴·Σ|terms|` (n = longest chain of float operations:
 row length(s) + contributions to the voxel + 10), plus `8·2⁻²⁴·|value|` for the value (log). -/
 namespace Driver.C05
@@ -84,6 +91,17 @@ def binF (b : Bin Rat) : Bin Float :=
   { endPlane := b.endPlane, y := toFloat b.y, a := b.a.map toFloat, fac := b.fac.map factorF,
     row := b.row.map fun e => (e.1, toFloat e.2) }
 
+/-- an image of the sensitivity bookkeeping: per voxel the exact value, `Σ|terms|` and the number of terms -/
+abbrev VImg := Array (Rat × Rat × Rat)
+
+def vops (nvox : Nat) : ImgOps VImg :=
+  { zero := Array.replicate nvox (0, 0, 0)
+    add := fun a b => ((List.range (max a.size b.size)).map fun i =>
+      let x := a.getD i (0, 0, 0)
+      let y := b.getD i (0, 0, 0)
+      (x.1 + y.1, x.2.1 + y.2.1, x.2.2 + y.2.2 + 1)).toArray
+    divN := fun a n => a.map fun x => (x.1 / ((n : Int) : Rat), x.2.1 / ((n : Int) : Rat), x.2.2 + 1) }
+
 structure Ctx where
   zero : Bool := false
   nvox : Nat := 0
@@ -93,6 +111,8 @@ structure Ctx where
   svgs : Array (List (Bin Rat)) := #[]
   hasS : Bool := false
   pmax : Rat := 0                        -- largest matrix element of the configuration
+  sobj : SensObj VImg := SensObj.fresh   -- the object of the re-use history (survives `cfg`)
+  sfiles : SensFiles VImg := SensFiles.empty
 
 def keyVal (toks : List String) (key : String) : Option String :=
   toks.findSome? fun t => if t.startsWith (key ++ "=") then some ((t.drop (key.length + 1)).toString) else none
@@ -198,6 +218,27 @@ def sensCore (c : Ctx) (sep : Bool) (ids : List Nat) (divide : Rat) : Option (Ar
   let mags := magContribs c.pmax (fun _ => 0) (fun _ b => sensW c.zero b) S
   some (vecCore c.nvox (maxRowLen S + 4) 0 1 cs mags divide)
 
+/-- what `add_subset_sensitivity` adds for the viewgrams `ids`: value, magnitude, number of contributions per voxel -/
+def sensImg (c : Ctx) (sep : Bool) (ids : List Nat) : VImg :=
+  let S := getVgs (if sep then c.svgs else c.vgs) ids
+  let cs := sensContribs c.zero S
+  let mags := magContribs c.pmax (fun _ => 0) (fun _ b => sensW c.zero b) S
+  let val := accumulate c.nvox cs
+  let mag := accumulate c.nvox mags
+  let cnt := accumulate c.nvox (cs.map fun e => (e.1, (1 : Rat)))
+  ((List.range c.nvox).map fun v => (val.getD v 0, mag.getD v 0, cnt.getD v 0)).toArray
+
+/-- longest row of the configuration -/
+def maxRowLenAll (c : Ctx) : Nat :=
+  max (maxRowLen c.vgs.toList) (maxRowLen c.svgs.toList)
+
+/-- value and bound `4·(row length + 4 + terms + 10)·2⁻²⁴·Σ|terms|` per voxel, as `sensCore` -/
+def fmtVImg (c : Ctx) : Option VImg → String
+  | none => "null"
+  | some a =>
+    let rl : Rat := ((maxRowLenAll c + 4 : Nat) : Int)
+    fmtPairs (some (a.map fun x => (x.1, 4 * (rl + x.2.2 + 10) * u24 * x.2.1)))
+
 def hessCore (c : Ctx) (c0 : Rat) (ids : List Nat) : Option (Array (Rat × Rat)) :=
   let S := getVgs c.vgs ids
   let img := fun i => c.img.getD i 0
@@ -300,7 +341,18 @@ def stepLine (c : Ctx) (line : String) : Ctx × String :=
   let N (s : String) : Nat := s.toNat?.getD 0
   match toks with
   | "cfg" :: rest =>
-    ({ zero := keyVal rest "zero" == some "1", nvox := N ((keyVal rest "nvox").getD "0") }, "ok")
+    ({ zero := keyVal rest "zero" == some "1", nvox := N ((keyVal rest "nvox").getD "0"), sobj := c.sobj, sfiles := c.sfiles }, "ok")
+  | ["hnew"] => ({ c with sobj := SensObj.fresh, sfiles := SensFiles.empty }, "ok")
+  | "hsetup" :: useSub :: n :: setter :: totName :: subName :: balanced :: sep :: rest =>
+    let o := if setter == "-" then c.sobj else { c.sobj with recompute := setter == "1" }
+    let incs := ((splitSubsets rest).map fun ids => sensImg c (sep == "1") ids).toArray
+    let ops := vops c.nvox
+    let cfg : SensCfg := { useSub := useSub == "1", n := N n, totName := totName == "1", subName := subName == "1",
+                           accepted := setUpAcceptsSubsets (useSub == "1") (if balanced == "1" then [1, 1] else [1, 2]) }
+    let (acc, o', f') := setUpSens ops cfg (fun s => incs.getD s ops.zero) o c.sfiles
+    ({ c with sobj := o', sfiles := f' }, (if acc then "ok " else "refused ") ++ (if o'.recompute then "1" else "0"))
+  | ["hsub", s] => (c, fmtVImg c (c.sobj.getSub (N s)))
+  | ["htot"] => (c, fmtVImg c c.sobj.getTot)
   | "img" :: rest => ({ c with img := (rest.map hexD).toArray }, "ok")
   | "inp" :: rest => ({ c with inp := (rest.map hexD).toArray }, "ok")
   | "bin" :: rest =>
